@@ -51,6 +51,32 @@ def unhex(h: str) -> str:
         return h  # not hex: show as is
 
 
+_RUST_LIT = r'(?:-?(?:0x[0-9a-fA-F_]+|0o[0-7_]+|0b[01_]+|\d[\d_]*)(?:_?[ui](?:8|16|32|64|128|size))?|true|false|"(?:[^"\\]|\\.)*")'
+
+
+def resolve_consts(src: str) -> str:
+    """Inline simple named constants (`const NAME: T = <integer | bool | string literal>;`, at
+    module or impl level) into a Rust source text, so that the text patterns of the translators
+    read `writer_with_num_threads(WRITER_THREADS, …)` like `writer_with_num_threads(1, …)`.
+    Integer literals are normalised to plain decimal. Used only for extraction."""
+    consts = {}
+    for m in re.finditer(r"\bconst\s+([A-Z][A-Z0-9_]*)\s*:\s*[^=;]+?=\s*(" + _RUST_LIT + r")\s*;", src):
+        name, lit = m.group(1), m.group(2)
+        if not (lit in ("true", "false") or lit.startswith('"')):
+            neg = lit.startswith("-")
+            t = re.sub(r"_?[ui](?:8|16|32|64|128|size)$", "", lit.lstrip("-")).replace("_", "")
+            lit = ("-" if neg else "") + str(int(t, 0) if t[:2] in ("0x", "0o", "0b") else int(t))
+        if name in consts and consts[name] != lit:
+            consts[name] = None          # two different constants of one name: leave it alone
+        else:
+            consts.setdefault(name, lit)
+    for name, lit in consts.items():
+        if lit is None:
+            continue
+        src = re.sub(r"\b(?:Self::|[A-Z]\w*::)?" + name + r"\b(?!\s*:)", lambda _m, lit=lit: lit, src)
+    return src
+
+
 class SplitMix64:
     """The single PRNG every random choice derives from."""
 
